@@ -30,6 +30,7 @@ PLAN = {
 }
 _SEQ = [0]
 _FIRED = [False]
+_FIRED_CHAINS = set()
 
 
 def log_event(ev, **fields):
@@ -49,20 +50,29 @@ def log_event(ev, **fields):
 
 def _maybe_interrupt(site, chain, stage, k):
     it = PLAN["interrupt"]
-    if not it or _FIRED[0] or it["site"] != site or it["stage"] != stage or it["k"] != k:
+    if not it or it["site"] != site or it["stage"] != stage or it["k"] != k:
         return
     if it["chain"] == chain:
+        if _FIRED[0]:
+            return
         _FIRED[0] = True
         log_event("Interrupt", site=site, c=chain, s=stage, k=k)
         raise KeyboardInterrupt
     if it["chain"] == 0:
-        # "Ctrl-C": every chain reaching this point is interrupted.  With a signal directory the
-        # interrupt is a REAL SIGINT sent to the whole process group by the harness once every
-        # running chain waits here; otherwise (sequential runs) it is raised in place.
+        # "Ctrl-C": EVERY chain reaching this point is interrupted (Sampler.tla, intr.chain = 0).  The flag is kept per
+        # chain, not per process: multiprocessing.Pool may hand both `_sample_chains_worker` tasks to one pool process
+        # (the other still starting up on a loaded machine), which then reaches this point once per chain it runs.
+        # With a signal directory the interrupt is a REAL SIGINT sent to the whole process group by the harness once
+        # every running chain waits here; otherwise (sequential runs, "child" variant) it is raised in place.  A process
+        # that has already received the real signal raises the interrupt in place for any further chain it takes.
+        if chain in _FIRED_CHAINS:
+            return
+        _FIRED_CHAINS.add(chain)
+        already = _FIRED[0]
         _FIRED[0] = True
         log_event("Interrupt", site=site, c=chain, s=stage, k=k)
         sd = PLAN.get("signal_dir")
-        if sd is None:
+        if sd is None or already:
             raise KeyboardInterrupt
         open(os.path.join(sd, f"at_barrier_{chain}"), "w").close()
         for _ in range(3000):
